@@ -268,11 +268,14 @@ pub struct RunResult {
     pub int_types: u16,
     pub ops_done: usize,
     pub boundary_fills: u64,
+    pub dropped_unwinding: bool,
 }
 
 /// Apply `ops` to a fresh writer over a sink with `policy`; judge after every operation.
 pub fn run_history(ops: &[WOp], policy: SinkPolicy, sink_seed: u64, cap: usize, hostile: bool) -> RunResult {
     let failing_sink = !policy.fail_at.is_empty() || !policy.zero_at.is_empty();
+    let policy_panic_at_none = policy.panic_at.is_none();
+    let mut dropped_unwinding = false;
     let sink = Sink::new(policy, sink_seed);
     let mut w = Some(DeferredWriter::from_write(sink.clone()));
     let mut expected: Vec<u8> = vec![];
@@ -591,7 +594,28 @@ pub fn run_history(ops: &[WOp], policy: SinkPolicy, sink_seed: u64, cap: usize, 
     // drop flushes
     if problems.is_empty() {
         let wr = w.take().unwrap();
-        let r = sut_caught(move || drop(wr));
+        // one run in three: the writer is not dropped by leaving its scope but by the stack unwinding
+        // from a panic of the code that uses it (the sink is healthy and outlives the unwind); what has
+        // been written must arrive all the same
+        let unwinding = !hostile && policy_panic_at_none && sink_seed % 3 == 0;
+        let r = if unwinding {
+            struct ClientUnwind;
+            let res = std::panic::catch_unwind(std::panic::AssertUnwindSafe(move || {
+                let _w = wr;
+                // no panic hook output: this is the harness's own unwind
+                std::panic::resume_unwind(Box::new(ClientUnwind));
+            }));
+            match res {
+                Err(p) if p.is::<ClientUnwind>() => Ok(()),
+                Err(_) => Err(("panic while the writer was dropped during unwinding".to_string(), String::new())),
+                Ok(()) => Ok(()),
+            }
+        } else {
+            sut_caught(move || drop(wr))
+        };
+        if unwinding {
+            dropped_unwinding = true;
+        }
         if r.is_err() {
             panics += 1;
             if !hostile {
@@ -650,6 +674,7 @@ pub fn run_history(ops: &[WOp], policy: SinkPolicy, sink_seed: u64, cap: usize, 
         int_types,
         ops_done,
         boundary_fills,
+        dropped_unwinding,
     }
 }
 
@@ -792,6 +817,9 @@ impl Monitor for C11 {
             rep.count("buf_write_ptr_nonnull", r.ptr_nonnull);
             rep.count("buf_write_ptr_null", r.ptr_null);
             rep.count("boundary_fills", r.boundary_fills);
+            if r.dropped_unwinding {
+                rep.inc("writers_dropped_by_unwinding_from_a_client_panic");
+            }
             for t in 0..12 {
                 if r.int_types & (1 << t) != 0 {
                     rep.inc(&format!("int_type:{}", crate::c13::TYPES[t]));
